@@ -197,24 +197,17 @@ pub struct Tracker {
 }
 
 fn start_tracker(sw: u8, wm: u8, keep_alive: bool, max_scrape: usize) -> Tracker {
-    let cfg = json!({"socket_workers": sw, "swarm_workers": wm, "network": {"keep_alive": keep_alive}, "protocol": {"max_scrape_torrents": max_scrape}, "cleaning": {"max_peer_age": 100000, "torrent_cleaning_interval": 100000}});
-    let mut child = TrackerChild::spawn("http", cfg, &[("AQV_PORT_PER_WORKER", "1".into())]);
-    // with a port per worker, wait for every worker's port
-    let t0 = std::time::Instant::now();
-    'outer: loop {
-        if child.exited().is_some() || t0.elapsed() > Duration::from_secs(90) {
-            machinery_failure("http tracker did not start");
+    // ready = every socket worker answers a request (see c17::start_tracker_cleaning for why one restart is allowed)
+    for attempt in 0..2 {
+        let cfg = json!({"socket_workers": sw, "swarm_workers": wm, "network": {"keep_alive": keep_alive}, "protocol": {"max_scrape_torrents": max_scrape}, "cleaning": {"max_peer_age": 100000, "torrent_cleaning_interval": 100000}});
+        let mut child = TrackerChild::spawn("http", cfg, &[("AQV_PORT_PER_WORKER", "1".into())]);
+        if all_workers_serving("http", child.port, sw, 90) && child.exited().is_none() {
+            return Tracker { child, socket_workers: sw, swarm_workers: wm, keep_alive, label: format!("socket_workers={} swarm_workers={} keep_alive={} max_scrape_torrents={}", sw, wm, keep_alive, max_scrape) };
         }
-        for w in 0..sw {
-            if std::net::TcpStream::connect_timeout(&SocketAddr::new(IpAddr::V4(Ipv4Addr::LOCALHOST), child.port + w as u16), Duration::from_millis(200)).is_err() {
-                std::thread::sleep(Duration::from_millis(30));
-                continue 'outer;
-            }
-        }
-        break;
+        let ex = child.exited();
+        eprintln!("[C16] tracker socket_workers={} swarm_workers={} not serving after 90 s (attempt {}, exit code {:?}); threads: {:?}", sw, wm, attempt, ex, proc_thread_states(child.child.id()));
     }
-    std::thread::sleep(Duration::from_millis(100));
-    Tracker { child, socket_workers: sw, swarm_workers: wm, keep_alive, label: format!("socket_workers={} swarm_workers={} keep_alive={} max_scrape_torrents={}", sw, wm, keep_alive, max_scrape) }
+    machinery_failure("http tracker did not start serving (two attempts, 90 s each)");
 }
 
 fn hash_for(ns: u64, t: u8, pl: &Placement, swarm_workers: u8) -> [u8; 20] {
